@@ -20,7 +20,10 @@ def run(cmd, **kw):
 try:
     run(["rsync", "-a", "--exclude", ".git", "--exclude", "__pycache__", "--exclude", "docs", "--exclude", "notebook_examples", "/repo/", copy + "/"])
     env = dict(os.environ); env.pop("JTIOSUE_QUBOVERT_VERIF", None); env["PYTHONPATH"] = copy
-    demo = os.path.join(a.seed_dir, "demo.py"); patch = os.path.join(a.seed_dir, "patch.diff")
+    # same layout as in the sub-agent's worktree: <checkout>/_seedX/demo.py (some demos locate the checkout from __file__)
+    local = os.path.join(copy, os.path.basename(os.path.normpath(a.seed_dir)) if os.path.basename(os.path.normpath(a.seed_dir)).startswith("_seed") else "_seed")
+    shutil.copytree(a.seed_dir, local, dirs_exist_ok=True)
+    demo = os.path.join(local, "demo.py"); patch = os.path.join(a.seed_dir, "patch.diff")
     r = run(["/venv/bin/python", demo], cwd=copy, env=env); log["demo_unchanged_rc"] = r.returncode
     r = run(["patch", "-p1", "-d", copy, "-i", patch]); log["patch_applies"] = r.returncode == 0
     if r.returncode: print("PATCH FAILED", r.stdout, r.stderr); sys.exit(3)
@@ -47,7 +50,7 @@ try:
     dest = os.path.join(HERE, "seeded", a.name)
     if ok:
         os.makedirs(dest, exist_ok=True)
-        shutil.copy(patch, os.path.join(dest, "patch.diff")); shutil.copy(demo, os.path.join(dest, "demo.py"))
+        shutil.copy(patch, os.path.join(dest, "patch.diff")); shutil.copy(os.path.join(a.seed_dir, "demo.py"), os.path.join(dest, "demo.py"))
         if os.path.isfile(os.path.join(a.seed_dir, "notes.md")): shutil.copy(os.path.join(a.seed_dir, "notes.md"), os.path.join(dest, "notes.md"))
         meta = {"property": a.prop, "needs_to_manifest": a.needs, "source": "independent sub-agent given only the property text and a scratch worktree",
                 "confirmed": log, "checks_run": res, "tier": a.tier,
